@@ -73,8 +73,17 @@ def gen_crystal():
             else:
                 items.append("(%s, inr %s)" % (cstr(k.value), cstr(num_text(src, val))))
         rows.append("Some [%s]" % "; ".join(items))
-    body = ("Definition crystal_structures : list (option (list (string * (string + string)))) := %s."
-            % clist(rows))
+    # every entry is followed, on its line, by a comment naming the element it belongs to (the list is positional):
+    # the labels are carried over so that a row inserted or dropped in the middle can be told
+    lines = src.split("\n")
+    labels = []
+    for e in v.elts:
+        line = lines[e.end_lineno - 1]
+        need("#" in line[e.end_col_offset:], "crystal_structures entry on line %d has no '#Symbol' comment" % e.end_lineno)
+        labels.append(cstr(line[e.end_col_offset:].split("#", 1)[1].strip()))
+    body = ("Definition crystal_structures : list (option (list (string * (string + string)))) := %s.\n"
+            "Definition crystal_labels : list string := %s."
+            % (clist(rows), clist(labels)))
     write("Crystal", "periodictable/crystal_structure.py", body)
 
 
